@@ -1,3 +1,4 @@
+import copy
 from inspect import isfunction, signature
 from collections.abc import Iterable
 
@@ -39,10 +40,16 @@ class Flow:
     def _chain(self, ds=None):
         from ..helpers import datapackage_processor, rows_processor, row_processor, iterable_loader
 
+        chained = set()
         for position, link in enumerate(self._preprocess_chain(), start=1):
             if isinstance(link, Flow):
                 ds = link._chain(ds)
             elif isinstance(link, DataStreamProcessor):
+                if id(link) in chained:
+                    # the same step object at a further position: each position gets a processor
+                    # of its own (a processor knows one upstream)
+                    link = copy.copy(link)
+                chained.add(id(link))
                 ds = link(ds, position=position)
             elif isfunction(link):
                 sig = signature(link)
